@@ -111,6 +111,54 @@ def oracle(ctx, p, o, i):
         ctx.sample({"files": proj.file_list(p)[:2]})
 
 
+RANGE_TYS = ["i8", "u8", "i16", "u16", "i32", "u32", "i64", "u64", "f32", "f64"]
+
+
+def kind_conflict_family(rng, n):
+    """one count variable driving values of different kinds in ONE key's signature, in every order of appearance: the key `k` is a plural in
+    some locales and a range (of some type) in others (the default locale is read first, so both `plural then range` and `range then
+    plural` occur); and inside a single value, references to a plural and to ranges in both orders (`"$t(pl) and $t(rg)"`).
+    Expected (judged by `judge` on whatever is accepted, and by the model): plural + range on one count, or two range types, is a
+    conflict that is reported - whichever is met first; the same kinds on *different* count variables are fine."""
+    out = []
+
+    def rng_value(l, ty, var="count"):
+        fl = ty in ("f32", "f64")
+        body = [ty, proj.A([f"[{l}] low {{{{ {var} }}}}", "0.0..=1.5" if fl else "0..=1"]), proj.A([f"[{l}] rest {{{{ {var} }}}}"])]
+        return proj.A(body)
+
+    for _ in range(n):
+        locs = rng.shuffle(["en", "fr", "de"])[: rng.range(2, 3)]
+        kinds = {}
+        files = {}
+        ty_a, ty_b = rng.pick(RANGE_TYS), rng.pick(RANGE_TYS)
+        for l in locs:
+            pairs = [("pl_one", f"[{l}] one"), ("pl_other", f"[{l}] {{{{ count }}}} many"), ("rg", rng_value(l, ty_a)), ("rh", rng_value(l, ty_b)),
+                     ("txt", f"[{l}] {{{{ count }}}} plain")]
+            kind = rng.pick(["plural", "range", "range2", "var", "string"])
+            kinds[l] = kind
+            if kind == "plural":
+                pairs += [("k_one", f"[{l}] one k"), ("k_other", f"[{l}] {{{{ count }}}} k")]
+            elif kind == "range":
+                pairs.append(("k", rng_value(l, ty_a)))
+            elif kind == "range2":
+                pairs.append(("k", rng_value(l, ty_b)))
+            elif kind == "var":
+                pairs.append(("k", f"[{l}] {{{{ count }}}}"))
+            else:
+                pairs.append(("k", f"[{l}] text"))
+            # inside one value: references in both orders, sharing `count` or with one of them renamed (then no conflict)
+            a, b = rng.shuffle(rng.pick([["pl", "rg"], ["pl", "rg"], ["rg", "rh"], ["pl", "txt"], ["rg", "txt"], ["pl", "rg", "rh"]]))[:2]
+            if rng.chance(2, 3):
+                pairs.append(("both", f"$t({a}) and $t({b})"))
+            else:
+                pairs.append(("both", f"$t({a}) and $t({b}, {{\"count\": \"{{{{ n }}}}\"}})"))
+            files[(None, l)] = proj.O(rng.shuffle(pairs))
+        out.append({"default": locs[0], "locales": locs, "all_locales": locs, "namespaces": None, "inherits": {}, "files": files,
+                    "extra_cfg": False, "meta": {}, "kind_family": kinds})
+    return out
+
+
 def negative_probes(ctx, rng, binp, n):
     """omitting a required argument / adding an unknown one / naming an unknown key must not compile"""
     p, q, res = probe.gen_probe_project(rng, binp)
@@ -150,6 +198,8 @@ def run(ctx):
     # a referencing key is the one of the text it resolves to in the effective locale (judged against the model-resolved values)
     from . import c06
     generic_pipeline_check(ctx, [], c06.walk_family(rng, ctx.budget(400, 8000), vars=True), oracle, "C08-fallback-walk")
+    # one count variable driving a plural and a range (or two range types) in one key's signature, met in either order
+    generic_pipeline_check(ctx, [], kind_conflict_family(rng, ctx.budget(400, 8000)), oracle, "C08-kind-conflicts")
     probe.run_render_probe(ctx, rng, n_crates=ctx.budget(1, 3), flavours=("string",), sig_prefix="args", per_key=1)
     binp = build_parser(ctx)
     if binp is not None:
